@@ -9,7 +9,7 @@ META = {
     "harness_bins": ["nkeval"],
     "extract": "C05.v",
     "technique": "Coq proof of commutativity/associativity/unit/idempotence of the data-merge algebra (priorities, optional/not_exported, contracts, nested records, variants, arrays, pending conflicts) for all well-formed trees; algebra tied to merge.rs by differential evaluation (extracted model vs interpreter) and the laws re-checked directly on the interpreter",
-    "level_text": "coq/Props/C05.v: for ALL well-formed data trees (any depth/width) merge is closed, commutative, associative, idempotent and has {} as unit, as equalities of denotations, hence of exports (C05_export_*). The algebra (coq/Merge/Algebra.v) is a hand-written reading of merge.rs/merge_fields/MergePriority/iter_serializable; it is tied to the code by running every generated merge expression through the extracted model and through the real interpreter (harness nkeval) and comparing exported trees / error kinds, and each law is also evaluated directly on the interpreter (both operand orders, both bracketings, a & {}, a & a). PARTIAL: recursive fields referring to siblings are outside the algebra; for them the laws are only checked on the interpreter (direct oracle), not proved: checks/richmerge.py generates triples of record literals with recursive fields (references to siblings under lambdas / lets / patterns that reuse the field names, nested and piecewise definitions whose sibling-dependency sets are equal / disjoint / included / overlapping, fields declared in one operand and defined in another, overriding by priority) and requires that the 6 operand orders x 2 bracketings export the same JSON or all fail, that x & {} and {} & x equal x and that x & x equals x. " + mergemech.MECH_TEXT_C05,
+    "level_text": "coq/Props/C05.v: for ALL well-formed data trees (any depth/width) merge is closed, commutative, associative, idempotent and has {} as unit, as equalities of denotations, hence of exports (C05_export_*). The algebra (coq/Merge/Algebra.v) is a hand-written reading of merge.rs/merge_fields/MergePriority/iter_serializable; it is tied to the code by running every generated merge expression through the extracted model and through the real interpreter (harness nkeval) and comparing exported trees / error kinds, and each law is also evaluated directly on the interpreter (both operand orders, both bracketings, a & {}, a & a). PARTIAL: recursive fields referring to siblings are outside the algebra; for them the laws are only checked on the interpreter (direct oracle), not proved: checks/richmerge.py generates triples of record literals with recursive fields (references to siblings under lambdas / lets / patterns that reuse the field names, nested and piecewise definitions whose sibling-dependency sets are equal / disjoint / included / overlapping, fields declared in one operand and defined in another, overriding by priority, operands under local contract aliases of the same name, arrays of records with field metadata) and requires that the 6 operand orders x 2 bracketings export the same JSON or all fail, that x & {} and {} & x equal x and that x & x equals x. " + mergemech.MECH_TEXT_C05,
     "level_note": "Trusted: Coq kernel; extraction (ExtrOcamlBasic); the algebra's reading of the code (validated by correspondence only); generator/printer in checks/mergegen.py; contracts are modelled as predicates on exported data (validating contracts only). The well-formedness hypothesis of the theorems (sorted keys, canonical priorities, plain data inside arrays) is checked by the extracted `wf` on every generated case.",
 }
 
